@@ -74,13 +74,10 @@ def load_already_processed_files_in_directory(directory: Optional[str]) -> Set[s
     already_processed = set()
 
     if directory is not None:
-        file_pattern = r"(.+?)(\.logits|\.xml|\.jpg)"
-        regex = re.compile(file_pattern)
-
         for file in os.listdir(directory):
-            matched = regex.match(file)
-            if matched:
-                already_processed.add(matched.groups()[0])
+            file_id, extension = os.path.splitext(file)
+            if extension in ('.logits', '.xml', '.jpg'):
+                already_processed.add(file_id)
 
     return already_processed
 
